@@ -1,5 +1,5 @@
 import McpModel.Base.Proto
-import McpModel.Bearer.Monitor
+import McpModel.Bearer.Session
 /-!
 Driver for E10 (C14).  One record = one request through the real `RequireBearerToken` closure.
 
@@ -286,24 +286,89 @@ def selfCheck (m : Obs) : Option String :=
   if parseObs (renderObs m) == some m then none
   else some "LIBDISC render/parse: the model's observation does not survive the string layer"
 
-def engine : Engine Unit where
-  init := ()
-  step _ toks impl :=
+/-! ### Sessions: one middleware value, applications, histories of requests (Session.lean) -/
+
+/-- Driver state of a case: the middleware value of the `mw` record (if any) and the number of handlers. -/
+structure DState where
+  sess : Option (Sess String) := none
+  nh : Nat := 0
+
+def SClause.text (impl : String) : SClause → String
+  | .malformedRuns => s!"bad-observation: {impl}"
+  | .strayHandler made j => s!"admit_iff: the request went through the wrapper made for handler {made}, but handler {j} ran: a handler wrapped by the middleware runs only for requests sent to ITS wrapper"
+  | .base c => Clause.text 1 impl c ++ " [one middleware value: earlier and concurrent requests and other wrapped handlers must not matter]"
+
+def renderSObs (o : SObs) : String :=
+  renderObs o.obs ++ " hr=" ++ csv (o.hr.map toString)
+
+def parseSObs (impl : String) : Option SObs := do
+  let o ← parseObs impl
+  let hr ← (splitObs (← kv (words impl) "hr")).mapM (·.toNat?)
+  return { obs := o, hr := hr }
+
+def stepSreq (st : DState) (toks : List String) (impl : String) : Proto.Verdict :=
+  match st.sess with
+  | none => { model := "bad-op" }
+  | some s =>
+    let parsed : Option (Nat × Req) := do
+      let w ← (← kv toks "w").toNat?
+      let made ← s.wrappers[w]?
+      let at_ ← (← kv toks "at").toInt?
+      let h ← (← kv toks "h") |> unxList
+      let sc ← parseScript toks "" at_
+      return (made, Req.ofSession s.opts (h.headD "").toList sc)
+    match parsed with
+    | none => { model := "bad-op" }
+    | some (made, r) =>
+      match sessObsOf st.nh made r with
+      | none => { model := "nothing-written", violated := some "LIBDISC the model writes no response" }
+      | some m =>
+        let viol : Option String :=
+          match parseSObs impl with
+          | none => some s!"bad-observation: {impl}"
+          | some o => (sessMonitor st.nh made r o).map (SClause.text impl)
+        let self : Option String :=
+          if parseSObs (renderSObs m) == some m then none
+          else some "LIBDISC render/parse: the model's observation does not survive the string layer"
+        { model := renderSObs m, violated := viol <|> self }
+
+def engine : Engine DState where
+  init := {}
+  step st toks impl :=
     match toks with
-    | ["reset"] => ((), { model := "ok" })
+    | ["reset"] => ({}, { model := "ok" })
+    | "mw" :: rest =>
+      let parsed : Option (Option (Opts String) × Nat) := do
+        let op ← kv rest "op"
+        let rm ← (← kv rest "rm") |> unx
+        let rs ← (← kv rest "rs") |> unxList
+        let am ← kv rest "am"
+        let sk ← (← kv rest "sk").toInt?
+        let nh ← (← kv rest "nh").toNat?
+        return (if op == "n" then none else some { rm := rm, scopes := rs, allowMissing := am == "1", skew := sk }, nh)
+      match parsed with
+      | some (opts, nh) => ({ sess := some { opts := opts, wrappers := [] }, nh := nh }, { model := "ok" })
+      | none => (st, { model := "bad-op" })
+    | "wrap" :: rest =>
+      match st.sess, (kv rest "hd").bind (·.toNat?) with
+      | some s, some j =>
+        if j < st.nh then ({ st with sess := some (s.step (σ := String) (α := Tag) (.wrap j)).1 }, { model := "ok" })
+        else (st, { model := "bad-op" })
+      | _, _ => (st, { model := "bad-op" })
+    | "sreq" :: rest => (st, stepSreq st rest impl)
     | "req" :: rest =>
       match parseReq rest with
-      | none => ((), { model := "bad-op" })
+      | none => (st, { model := "bad-op" })
       | some r =>
         match obsOf r with
-        | none => ((), { model := "nothing-written", violated := some "LIBDISC the model writes no response" })
+        | none => (st, { model := "nothing-written", violated := some "LIBDISC the model writes no response" })
         | some m =>
           let viol : Option String :=
             match parseObs impl with
             | none => some s!"bad-observation: {impl}"
             | some o => (monitor r o).map (Clause.text r.layers.length impl)
-          ((), { model := renderObs m, violated := viol <|> selfCheck m })
-    | _ => ((), { model := "bad-op" })
+          (st, { model := renderObs m, violated := viol <|> selfCheck m })
+    | _ => (st, { model := "bad-op" })
 
 end Bearer
 
